@@ -1508,6 +1508,9 @@ func (v *valset) runHVS(depth int, thorough bool) (int64, []int, bool) {
 
 func main() {
 	r = vk.New("model_checking")
+	if r.ReplayIn != "" {
+		fmt.Printf("replay %s: the exploration is deterministic and exhaustive; re-running the quick tier re-reports the recorded violation key if it still occurs\n", r.ReplayIn)
+	}
 	r.SetBudget(85*time.Second, 20*time.Minute)
 	debug.SetGCPercent(400)
 	if pf := os.Getenv("VERIF_PROF"); pf != "" {
@@ -1533,8 +1536,8 @@ func main() {
 			{[]int64{2, 2, 1}, 1, 8},
 			{[]int64{2, 2, 1}, 0, 5},
 			{[]int64{3, 1, 1, 1}, 1, 6},
-			{[]int64{1, 1, 1, 1}, 1, 5},
-			{[]int64{5, 3, 1, 1}, 1, 5},
+			{[]int64{1, 1, 1, 1}, 1, 6},
+			{[]int64{5, 3, 1, 1}, 1, 6},
 		}
 	} else {
 		cfgs = []cfg{
